@@ -393,30 +393,28 @@ Definition run_via_phys (g h : geom) (round check : bool) (pts : list vec3) : va
 (* numpy dtypes of the caller's index array: signed / unsigned integers and floats of 8..64 bits.
      input_is_int = indices.dtype.kind == 'i'          (SIGNED integers only)
      round_output:  np.around(out).astype(indices.dtype if input_is_int else np.int64)
-     otherwise:     out                                  if input_is_int
-                    out.astype(indices.dtype)            if not  (floats: rounding to the float type is an oracle
-                                                         premise; UNSIGNED integers: truncation toward zero and
-                                                         reduction mod 2^bits - reported defect, see
-                                                         v2v_dt_unsigned_unrounded_refuted)
+     otherwise:     out.astype(indices.dtype)            if indices.dtype.kind == 'f'  (rounding to the float type
+                                                         is an oracle premise: the model keeps the exact value)
+                    out (float64)                        for signed AND unsigned integer inputs (fix D112: unsigned
+                                                         inputs used to be cast back to the unsigned type)
    the bounds check looks at the values AFTER the cast.  astype to a signed integer type of `bits` bits is two's
    complement wrap-around (numpy: C cast; exact for every value that fits) *)
 Inductive width : Type := W8 | W16 | W32 | W64.
 Definition wbits (w : width) : Z := match w with W8 => 8 | W16 => 16 | W32 => 32 | W64 => 64 end.
 Inductive idtype : Type := DInt (w : width) | DUInt (w : width) | DFloat (w : width).
 Definition input_is_int (dt : idtype) : bool := match dt with DInt _ => true | _ => false end.
+Definition input_is_float (dt : idtype) : bool := match dt with DFloat _ => true | _ => false end.
 Definition smin (w : width) : Z := - 2 ^ (wbits w - 1).
 Definition smax (w : width) : Z := 2 ^ (wbits w - 1) - 1.
 Definition wrap_s (w : width) (z : Z) : Z := (z + 2 ^ (wbits w - 1)) mod 2 ^ (wbits w) - 2 ^ (wbits w - 1).
-Definition wrap_u (w : width) (z : Z) : Z := z mod 2 ^ (wbits w).
-Definition qtrunc (q : Q) : Z := if Qle_bool 0 q then Qfloor q else Qceiling q.
-Definition round_width (dt : idtype) : width := match dt with DInt w => w | _ => W64 end.
+Definition round_width (dt : idtype) : width := if input_is_int dt then match dt with DInt w => w | _ => W64 end else W64.
 Definition vmapz (f : Q -> Z) (v : vec3) : vec3 := V3 (inject_Z (f (vx v))) (inject_Z (f (vy v))) (inject_Z (f (vz v))).
+(* astype(float type) of a float64 value: exact in the model *)
+Definition to_float (w : width) (v : vec3) : vec3 := v.
 Definition cast_out (dt : idtype) (round : bool) (v : vec3) : vec3 :=
   if round then vmapz (fun q => wrap_s (round_width dt) (rne q)) v
-  else match dt with
-       | DUInt w => vmapz (fun q => wrap_u w (qtrunc q)) v
-       | _ => v
-       end.
+  else if input_is_float dt then match dt with DFloat w => to_float w v | _ => v end
+  else v.
 Definition v2v_dt (dt : idtype) (A B : aff) (shapeB : t3 Z) (round check : bool) (pts : list vec3)
   : res (list vec3) :=
   if Qeq_bool (det B) 0 then Err VE else
@@ -434,7 +432,7 @@ Definition dt_code (dt : idtype) : Z :=
   match dt with DInt w => 100 + wbits w | DUInt w => 200 + wbits w | DFloat w => 300 + wbits w end.
 Definition out_dtype (dt : idtype) (round : bool) : idtype :=
   if round then DInt (round_width dt)
-  else match dt with DInt _ => DFloat W64 | _ => dt end.
+  else if input_is_float dt then dt else DFloat W64.
 (* [ Ok [indices; dtype code of the returned array] | Err ;
      h.map_reference_to_indices(g.map_indices_to_reference(pts), round, check) ] *)
 Definition run_v2v_dt (dt : idtype) (g h : geom) (round check : bool) (pts : list vec3) : val :=
